@@ -147,7 +147,7 @@ def no_pointer_identity(ck, rid="C03-O9", scope=None):
     F = ck.facts
     ck.rule(rid, "no container keyed by a raw `const char *` (QHash / QMap / QSet / std::map / std::unordered_map): a memo keyed on the address of a source-location string returns "
                       "another message's entry once the hand-off has re-homed the strings")
-    KEYED = re.compile(r"\b(QHash|QMultiHash|QMap|QMultiMap|QSet|QCache|std::map|std::unordered_map|std::set|std::unordered_set)<(const )?char ?(const )?\*")
+    KEYED = re.compile(r"\b(QHash|QMultiHash|QMap|QMultiMap|QSet|QCache|std::map|std::unordered_map|std::set|std::unordered_set)<\s*(?:(?:QPair|std::pair|std::tuple)<\s*)?(const )?char ?(const )?\*")
     hits = []
     # scope: substrings of class / function names the property talks about (None = the whole library). A memo keyed on an address in,
     # say, a formatter does not change the category filter's verdict, so C15 only looks at the filter's own classes
